@@ -177,8 +177,81 @@ func (o *Optimizer) buildFinalPlan(s Storage, fp Plan, stmt *SelectStmt) (FinalP
 	return ffp, nil
 }
 
+// checkFunctionCalls reports the first call of an unknown function or of a
+// function with a wrong number of arguments, so that such a statement is
+// rejected when the plan is built and not when the first row is evaluated
+func checkFunctionCalls(exprs ...Expression) error {
+	var ferr error
+	for _, expr := range exprs {
+		if expr == nil {
+			continue
+		}
+		expr.Walk(func(e Expression) bool {
+			if ferr != nil {
+				return false
+			}
+			fc, ok := e.(*FunctionCallExpr)
+			if !ok {
+				return true
+			}
+			fname, err := GetFuncNameFromExpr(fc)
+			if err != nil {
+				ferr = err
+				return false
+			}
+			var (
+				numArgs int
+				varArgs bool
+			)
+			if fobj, have := GetScalarFunctionByName(fname); have {
+				numArgs, varArgs = fobj.NumArgs, fobj.VarArgs
+			} else if aobj, have := GetAggrFunctionByName(fname); have {
+				numArgs, varArgs = aobj.NumArgs, aobj.VarArgs
+			} else {
+				ferr = NewSyntaxError(fc.GetPos(), "Cannot find function %s", fname)
+				return false
+			}
+			if !varArgs && len(fc.Args) != numArgs {
+				ferr = NewSyntaxError(fc.GetPos(), "Function %s require %d arguments but got %d", fname, numArgs, len(fc.Args))
+				return false
+			}
+			if varArgs && len(fc.Args) < numArgs {
+				ferr = NewSyntaxError(fc.GetPos(), "Function %s require at least %d arguments but got %d", fname, numArgs, len(fc.Args))
+				return false
+			}
+			return true
+		})
+	}
+	return ferr
+}
+
+func (o *Optimizer) checkStatementFunctions() error {
+	switch stmt := o.stmt.(type) {
+	case *SelectStmt:
+		if err := checkFunctionCalls(stmt.Fields...); err != nil {
+			return err
+		}
+		return checkFunctionCalls(stmt.Where.Expr)
+	case *DeleteStmt:
+		return checkFunctionCalls(stmt.Where.Expr)
+	case *PutStmt:
+		for _, kvp := range stmt.KVPairs {
+			if err := checkFunctionCalls(kvp.Key, kvp.Value); err != nil {
+				return err
+			}
+		}
+	case *RemoveStmt:
+		return checkFunctionCalls(stmt.Keys...)
+	}
+	return nil
+}
+
 func (o *Optimizer) buildPlan(s Storage) (FinalPlan, error) {
 	err := o.init()
+	if err != nil {
+		return nil, err
+	}
+	err = o.checkStatementFunctions()
 	if err != nil {
 		return nil, err
 	}
